@@ -51,6 +51,30 @@ pub fn exec_box(_ctx: &mut Ctx, t: &mut Toks) -> String {
             out.push_str(&format!(" {} {}", f32_tok(u.area()), f32_tok(u.get_radius())));
             out
         }
+        "polyrot" => {
+            // gen_vertices() on the box, then the consuming `rotate(angle)`: the polygon the rotated box carries / clips with
+            // must be the rectangle at the NEW angle. Answer: cos sin of the new angle, the cached polygon (4 points or `-`),
+            // the area of `rotated.sutherland_hodgman_clip(fresh box at the new angle)`
+            let mut u = ubox(t);
+            let angle = t.f32();
+            u.gen_vertices();
+            let r = u.rotate(angle);
+            let fresh = Universal2DBox::new(r.xc, r.yc, r.angle, r.aspect, r.height);
+            let (c, s) = cs(&fresh);
+            let mut out = format!("{} {}", f64_tok(c), f64_tok(s));
+            match r.get_cached_vertices() {
+                Some(p) => {
+                    out.push_str(" P");
+                    for q in p.exterior().coords_iter().take(4) {
+                        out.push_str(&format!(" {} {}", f64_tok(q.x), f64_tok(q.y)));
+                    }
+                }
+                None => out.push_str(" -"),
+            }
+            let clip = r.sutherland_hodgman_clip(fresh.clone());
+            out.push_str(&format!(" {} {}", f64_tok(geo::Area::unsigned_area(&clip)), f32_tok(fresh.area())));
+            out
+        }
         "eq" => {
             let a = ubox(t);
             let b = ubox(t);
